@@ -34,6 +34,11 @@ func (w *Adv) forgeAuthor(mode, name string, time int, next []cid.Cid) (*entry.E
 		b.ID = a.ID
 		b.Type = "other"
 		spec.Block = b
+	case "copied-id-type-case": // as above, but the type is "orbitdb" spelled in another letter case
+		b := CopyIdentity(n)
+		b.ID = a.ID
+		b.Type = "OrbitDB"
+		spec.Block = b
 	case "resigned-id": // writer's id in N's block, identity signatures recomputed with N's keys
 		b := CopyIdentity(n)
 		b.ID = a.ID
@@ -60,7 +65,7 @@ func (w *Adv) forgeAuthor(mode, name string, time int, next []cid.Cid) (*entry.E
 	return e, err
 }
 
-var c03Modes = []string{"honest-nonwriter", "copied-id", "copied-block", "copied-block-and-key", "resigned-id", "copied-id-other-type"}
+var c03Modes = []string{"honest-nonwriter", "copied-id", "copied-block", "copied-block-and-key", "resigned-id", "copied-id-other-type", "copied-id-type-case"}
 
 type c03Case struct {
 	Writers    []string
